@@ -181,6 +181,14 @@ def chain_check(pid: str, mode: str):
         raise MachineryError("no histories emitted by TLC")
     by_id = {r["id"]: r for r in runs}
     results = pool.parallel_map(worker, [(c, chk.seed, None) for c in pool.chunks(runs, size)])
+    # the same histories as real pytest sessions of the plugin (its own session end: report loop, category by
+    # category) for a sample
+    from .. import session_driver
+    session_driver.preload()
+    ns = (240 if mode == "chain8" else 60) if chk.quick else (3000 if mode == "chain8" else 600)
+    sub = [dict(r, id=r["id"] + "@session") for r in runs[:: max(1, len(runs) // ns)][:ns]]
+    by_id.update({r["id"]: r for r in sub})
+    results += pool.parallel_map(worker, [(c, chk.seed, "session") for c in pool.chunks(sub, 4)])
     errors = 0
     for chunk in results:
         for r in chunk:
